@@ -74,8 +74,8 @@ class Check:
     # single-row twins: each obligation is evaluated again with the listed row axes declared to have exactly one row
     # (alg.unit_axes); the twin is recorded only when the evaluation met one of those axes (otherwise it is the same obligation)
     SINGLE_ROW_MODES = {
-        "C03": (("B",), ("Bb",), ("I",), ("S",), ("B", "Bb", "I", "S")),
-        "C04": (("B",), ("Bb",), ("B", "Bb", "I", "S")),
+        "C03": (("B",), ("B", "Bb", "I", "S")),
+        "C04": (("Bb",), ("B", "Bb", "I", "S")),
         "C05": (("B",), ("I",), ("S",), ("B", "Bb", "I", "S")),
         "C12": (("B",), ("I",), ("B", "Bb", "I", "S")),
         "C06": (("B", "Bb", "I", "S"),), "C13": (("B", "Bb", "I", "S"),),
